@@ -210,7 +210,7 @@ def one_case(ctx, rng, basedir, spec=None):
         if spec is None:
             pre = ["_job.pklz"] if rng.random() < 0.6 else []
             if rng.random() < 0.15:
-                lv = [Path(str(x)).name for _, _, _, v in flds for x in base.leaves_of(v)]
+                lv = [Path(base.fsp(x)).name for _, _, _, v in flds for x in base.leaves_of(v)]
                 pre = sorted(set(pre) | {rng.choice(lv + ["f (1).txt", "zz_unrelated"])})
         else:
             pre = spec.get("pre", [])
@@ -242,7 +242,7 @@ def one_case(ctx, rng, basedir, spec=None):
             try:
                 return orig_cnf(*a, **k)
             finally:
-                counts.append(ncalls[0] - before)
+                counts.append((k.get("value", a[0] if a else None), ncalls[0] - before))
 
         err = None
         jobmod.copy_nested_files, FileSet.copy = counting_cnf, counting_copy
@@ -254,8 +254,8 @@ def one_case(ctx, rng, basedir, spec=None):
             errtxt = "%s: %s" % (type(e).__name__, str(e)[:300].replace(str(sb.root), "/T"))
         finally:
             jobmod.copy_nested_files, FileSet.copy = orig_cnf, orig_copy
-        names = [Path(str(x)).name for x in leaves]
-        src_set = {str(x) for x in leaves}
+        names = [Path(base.fsp(x)).name for x in leaves]
+        src_set = {base.fsp(x) for x in leaves}
         head = [base.enc_table(sb, table), coqio.string(sb.dest_canon), base.enc_snap(c0), enc_fields]
         meta["n_leaves"] = len(leaves)
         meta["gates"] = [g for _, g, _, _ in fields]
@@ -264,17 +264,20 @@ def one_case(ctx, rng, basedir, spec=None):
             return coqio.pair(*head, "(OErr %s)" % base.oerr(err)), meta
         outs, k = [], 0
         for name, g, m, v in fields:
-            if v and g:
-                n = counts[k] if k < len(counts) else -1
+            # the copy_nested_files calls were recorded in field order, with the value they were given
+            if g and (v or isinstance(v, FileSet)) and k < len(counts) and counts[k][0] is v:
+                n = counts[k][1]
                 k += 1
             else:
                 n = 0
             outs.append((inputs[name], n))
+        if k != len(counts):
+            outs = [(v, -1) for v, _ in outs]   # calls that match no field: cannot happen, shown as a tie failure
         c1 = sb.snapshot()
         syms = sb.symlinks()
         sb.modify_sources(sorted(src_set))
         c2 = sb.snapshot()
-        staged_nonleave = any(str(x).startswith(str(sb.dest)) for _, _, _, v in [(0, 0, 0, inputs[f[0]]) for f in fields]
+        staged_nonleave = any(base.fsp(x).startswith(str(sb.dest)) for _, _, _, v in [(0, 0, 0, inputs[f[0]]) for f in fields]
                               for x in base.leaves_of(v))
         meta.update(result="ok", outputs=[[base.describe(sb, v), n] for v, n in outs],
                     dest_listing=[x[0][1] for x in c1 if x[0][0] == sb.dest_canon],
